@@ -15,6 +15,9 @@ CHECKS = {
  "C04": dict(ref="4 C04 and 3.4", technique="property-based round-trip: independent writer (layout synthesizer) -> library reader, then model-based histories on the foreign file",
    text="An independent writer encodes generated logical contents in generated legal physical layouts (permuted/fragmented sectors and mini sectors, permuted directory slots with gaps, balanced red-black trees, DIFAT sectors); the library must open them in both modes and expose exactly the encoded content, and short mutation histories on them are judged by the C01-C03 oracles.",
    note="Trusted: synth.rs and refparse.rs (both harness code, cross-checking each other); 'spec-valid' is MS-CFB as read by the harness author."),
+ "C05": dict(ref="4 C05, 2.5, 3.6", technique="structured-corruption property testing (field-level corruption catalogue over valid images) with panic/CPU/allocation oracles; coverage-guided fuzzing (libFuzzer) in the thorough tier",
+   text="Valid images (foreign layouts and library-written) are damaged by 1-4 generated field-level corruptions; both open modes and a generated read-only script must return without panic, within a CPU budget and within a peak-allocation bound linear in the input length (counting allocator). Worker crashes and hangs are attributed to the case in flight and confirmed alone under rlimits.",
+   note="Covers every field with every value class singly and in small combinations; violations needing many coordinated corruptions are unlikely to be reached. Memory bound constant derived in DESIGN.md 2.5."),
  "C06": dict(ref="4 C06", technique="model-based property testing of call sequences against a Vec<u8>+cursor model, repeated across all buffer-size/version configurations",
    text="Generated call sequences on one stream handle are executed under 10 max_buffer_size settings x 2 versions and every return value is compared with a byte-vector-and-cursor model that does not depend on the configuration.",
    note="Trusted: the cursor model in engine_handles.rs; read may return any non-empty prefix."),
@@ -30,6 +33,9 @@ CHECKS = {
  "C10": dict(ref="4 C10", technique="model-based property testing with byte-identity oracle on every refused call",
    text="Histories with about half of the calls aimed at refusals; every call that returns NotFound/AlreadyExists/InvalidInput must leave the backend bytes identical and the model unchanged, so all later results are compared as if the call had not been made.",
    note="Trusted: model and refusal sets of DESIGN.md 3.1."),
+ "C11": dict(ref="4 C11, 3.6", technique="structured-corruption property testing restricted to fields permissive open does not validate, followed by generated mutation histories (model-less interpreter); coverage-guided fuzzing in the thorough tier",
+   text="Valid images are damaged in the fields that permissive open does not check (stream/root start sectors and sizes, chain cells, MiniFAT cells, cycles) and kept if open accepts; then 1-8 generated mutating operations chosen from what the library itself lists must all return Ok or Err - no panic (debug assertions and overflow checks on), no hang (CPU budget).",
+   note="Quick tier on the checked build (assertions on); thorough also on the release-semantics build."),
  "C12": dict(ref="4 C12", cat="fault_enumeration", technique="exhaustive single-fault enumeration (plus pairs) over generated read workloads, differential against the fault-free run and the true content",
    text="For generated read-only workloads every position k of the underlying read/seek call sequence gets a run with that call failing (all k, plus pairs); each API call must return Err only when a fault fired during it, otherwise its fault-free value, and bytes delivered must equal the true content at the position the handle reports, also on retries.",
    note="Exhaustive over single fault positions per workload; workloads and pairs are sampled. Trusted: model, synthesizer (images), fault backend."),
